@@ -245,5 +245,6 @@ pub fn property() -> Property {
             },
         ],
         assumptions: &["mania's great hit window is excluded from the inverse-clock-rate relation (constant in wall-clock terms by design) and given its own bound"],
+        enumerate: None,
     }
 }
